@@ -322,9 +322,9 @@ _SCALE = {
     "C03": [scale("deep", quick=14), abyss()],
     "C05": [scale("fat,vwide", quick=16), plan("joinbatch", quick=40, thorough=2000)],
     "C07": [scale("fat", quick=16), plan("joinbatch", quick=60, thorough=3000)],
-    "C10": [scale("vwide,deep,fat", quick=30), abyss()],
+    "C10": [scale("vwide,deep,fat", quick=30), plan("rejbar", quick=100, thorough=3000), abyss()],
     "C18": [scale("vwide,deep,fat", quick=24), plan("phname", quick=200, thorough=4000)],
-    "C19": [scale("vwide,fat", quick=16), plan("phname", quick=200, thorough=4000)],
+    "C19": [scale("vwide,fat", quick=16), plan("phname,rejbar", quick=300, thorough=6000)],
     "C20": [scale("vwide,deep", quick=10), plan("phname", quick=200, thorough=4000)],
 }
 for _k, _v in _SCALE.items():
